@@ -221,6 +221,73 @@ theorem parseModelInfo_no_states (raws : List Str) (p p' : Pre) (acc lines : Lis
               · cases hr
       · exact ih p (trim raw :: acc) h hno'
 
+/-- is the (trimmed) line consumed by the preamble pass? -/
+def isPreambleLine (l : Str) : Bool := keywords.any (fun kw => startsWith l kw)
+
+theorem preLine_none_iff (p : Pre) (l : Str) : (preLine p l).isNone = !(isPreambleLine l) := by
+  unfold preLine isPreambleLine keywords
+  simp only [List.any_cons, List.any_nil, Bool.or_false]
+  by_cases h1 : startsWith l kwValues = true
+  · simp [h1]
+  · by_cases h2 : startsWith l kwStates = true
+    · simp [h1, h2]
+    · by_cases h3 : startsWith l kwActions = true
+      · simp [h1, h2, h3]
+      · by_cases h4 : startsWith l kwObservations = true
+        · simp [h1, h2, h3, h4]
+        · by_cases h5 : startsWith l kwDiscount = true
+          · simp [h1, h2, h3, h4, h5]
+          · simp [h1, h2, h3, h4, h5]
+
+/-- **The preamble pass, structurally**: `lines_` is exactly the list of trimmed, non-empty lines that do not start
+    with a preamble keyword, in file order — statement lines and their continuation lines reach the main pass
+    unchanged and adjacent, wherever the preamble lines sit (even between a header and its rows). -/
+theorem parseModelInfo_lines (raws : List Str) (p p' : Pre) (acc lines : List Str)
+    (h : parseModelInfo raws p acc = .ok (p', lines)) :
+    lines = acc.reverse ++ (raws.map trim).filter (fun l => !l.isEmpty && !(isPreambleLine l)) := by
+  induction raws generalizing p acc with
+  | nil => simp only [parseModelInfo, pure_ok] at h; injection h with _ h2; simp [← h2]
+  | cons raw rest ih =>
+    simp only [parseModelInfo] at h
+    split at h
+    · rename_i he
+      rw [ih p acc h]
+      simp [List.filter_cons, he]
+    · rename_i he
+      have he' : (trim raw).isEmpty = false := by simpa using he
+      split at h
+      · rename_i r hr
+        obtain ⟨p1, _, h⟩ := bind_ok.1 h
+        rw [ih p1 acc h]
+        have hn := preLine_none_iff p (trim raw)
+        rw [hr] at hn
+        have hpl : isPreambleLine (trim raw) = true := by simpa using hn
+        simp [List.filter_cons, hpl]
+      · rename_i hr
+        rw [ih p (trim raw :: acc) h]
+        have hn := preLine_none_iff p (trim raw)
+        rw [hr] at hn
+        have hpl : isPreambleLine (trim raw) = false := by simpa using hn
+        simp [List.filter_cons, he', hpl]
+
+/-- a line that starts with a table letter is never taken for a preamble line (keywords are lower-case) -/
+theorem startsWith_head_ne (c k : Char) (r ks : Str) (h : (c == k) = false) : startsWith (c :: r) (k :: ks) = false := by
+  simp [startsWith, h]
+
+theorem statement_letters_not_preamble (c : Char) (r : Str) (hc : c = 'T' ∨ c = 'O' ∨ c = 'R') :
+    isPreambleLine (c :: r) = false := by
+  have hv : kwValues = 'v' :: "alues".toList := by decide
+  have hs : kwStates = 's' :: "tates".toList := by decide
+  have ha : kwActions = 'a' :: "ctions".toList := by decide
+  have ho : kwObservations = 'o' :: "bservations".toList := by decide
+  have hd : kwDiscount = 'd' :: "iscount".toList := by decide
+  unfold isPreambleLine keywords
+  simp only [List.any_cons, List.any_nil, Bool.or_false]
+  rw [hv, hs, ha, ho, hd]
+  rcases hc with rfl | rfl | rfl <;>
+    rw [startsWith_head_ne _ _ _ _ (by decide), startsWith_head_ne _ _ _ _ (by decide), startsWith_head_ne _ _ _ _ (by decide),
+        startsWith_head_ne _ _ _ _ (by decide), startsWith_head_ne _ _ _ _ (by decide)] <;> rfl
+
 /-- wrong number of ':' on a T / O line -/
 theorem processMatrix_rejects_bad_colon_count (fl : Flags) (D1 D2 D3 : Nat) (amap d1map d3map : IDMap) (line : Str)
     (rest : List Str) (h1 : countColon line ≠ 1) (h2 : countColon line ≠ 2) (h3 : countColon line ≠ 3) :
